@@ -27,6 +27,8 @@ func init() {
 	translators["utswrites"] = utsWrites
 	translators["tdorder"] = tdOrder
 	translators["acqroster"] = acqRoster
+	translators["dokill"] = doKill
+	translators["claimable"] = claimableTable
 }
 
 func ownSel(e ast.Expr) (x string, sel string, ok bool) {
@@ -399,5 +401,147 @@ func acqRoster() string {
 	fmt.Fprintf(&b, "Definition acq_roster_unconditional : bool := %v.\n", unconditional > 0)
 	b.WriteString("(* ... and so are, inside the loop over the deployment attempts, the tasks of an attempt that is retried *)\n")
 	fmt.Fprintf(&b, "Definition acq_roster_retry : bool := %v.\n", inRetry > 0)
+	return b.String()
+}
+
+// dokill: core/task/manager.go doKillTasks - what the loop over the ACTIVE tasks does when the KILL call
+// for one task fails: the task is put back into the roster (`m.roster.append(task)`), and the loop carries
+// on with the remaining tasks (no return / break / goto in that branch).
+func doKill() string {
+	_, f := parseFile("core/task/manager.go")
+	fd := findFunc(f, "Manager", "doKillTasks")
+	if fd == nil || fd.Body == nil {
+		die("dokill: func (m *Manager) doKillTasks not found")
+	}
+	found, putsBack, leaves := 0, false, false
+	ast.Inspect(fd.Body, func(n ast.Node) bool {
+		rs, ok := n.(*ast.RangeStmt)
+		if !ok {
+			return true
+		}
+		ast.Inspect(rs.Body, func(m ast.Node) bool {
+			is, ok := m.(*ast.IfStmt)
+			if !ok {
+				return true
+			}
+			b, ok := is.Cond.(*ast.BinaryExpr)
+			if !ok || b.Op != token.NEQ {
+				return true
+			}
+			if id, ok := b.Y.(*ast.Ident); !ok || id.Name != "nil" {
+				return true
+			}
+			// the failure branch of a kill call inside the loop
+			found++
+			ast.Inspect(is.Body, func(c ast.Node) bool {
+				switch v := c.(type) {
+				case *ast.ReturnStmt:
+					leaves = true
+				case *ast.BranchStmt:
+					if v.Tok == token.BREAK || v.Tok == token.GOTO {
+						leaves = true
+					}
+				case *ast.CallExpr:
+					if sel, ok := v.Fun.(*ast.SelectorExpr); ok && sel.Sel.Name == "append" {
+						if r, ok := sel.X.(*ast.SelectorExpr); ok && r.Sel.Name == "roster" {
+							putsBack = true
+						}
+					}
+				}
+				return true
+			})
+			return false
+		})
+		return true
+	})
+	if found == 0 {
+		die("dokill: no `if e != nil {...}` inside a range loop of doKillTasks")
+	}
+	var b strings.Builder
+	b.WriteString("(* regenerated on every run by harness/cmd/translate (dokill) from core/task/manager.go doKillTasks:\n   a task whose KILL call failed is put back into the roster; the loop then carries on with the other tasks *)\n")
+	fmt.Fprintf(&b, "Definition dokill_puts_back : bool := %v.\n", putsBack)
+	fmt.Fprintf(&b, "Definition dokill_carries_on : bool := %v.\n", !leaves)
+	return b.String()
+}
+
+// claimable: core/task/task.go IsClaimable - the truth table of its return expression over
+// locked x (status == ACTIVE) x state, evaluated symbolically (Go precedence: && binds tighter than ||).
+func claimableTable() string {
+	_, f := parseFile("core/task/task.go")
+	fd := findFunc(f, "Task", "IsClaimable")
+	if fd == nil || fd.Body == nil {
+		die("claimable: func (t *Task) IsClaimable not found")
+	}
+	var ret ast.Expr
+	for _, st := range fd.Body.List {
+		if r, ok := st.(*ast.ReturnStmt); ok && len(r.Results) == 1 {
+			ret = r.Results[0]
+		}
+	}
+	if ret == nil {
+		die("claimable: IsClaimable has no single-expression return")
+	}
+	states := []string{"STANDBY", "CONFIGURED", "RUNNING", "ERROR", "OTHER"}
+	codes := []int{0, 1, 2, 3, 9}
+	var eval func(e ast.Expr, locked, active bool, state string) bool
+	eval = func(e ast.Expr, locked, active bool, state string) bool {
+		switch v := e.(type) {
+		case *ast.ParenExpr:
+			return eval(v.X, locked, active, state)
+		case *ast.UnaryExpr:
+			if v.Op == token.NOT {
+				return !eval(v.X, locked, active, state)
+			}
+		case *ast.CallExpr:
+			if _, sel, ok := ownSel(v.Fun); ok && (sel == "isLocked" || sel == "IsLocked") {
+				return locked
+			}
+		case *ast.BinaryExpr:
+			switch v.Op {
+			case token.LAND:
+				return eval(v.X, locked, active, state) && eval(v.Y, locked, active, state)
+			case token.LOR:
+				return eval(v.X, locked, active, state) || eval(v.Y, locked, active, state)
+			case token.EQL, token.NEQ:
+				_, lhs, ok1 := ownSel(v.X)
+				res := false
+				known := false
+				if ok1 && lhs == "status" {
+					if id, ok := v.Y.(*ast.Ident); ok {
+						res, known = active == (id.Name == "ACTIVE"), id.Name == "ACTIVE"
+						if !known { // another status constant: true only when not ACTIVE is possible; treat as "not ACTIVE"
+							res, known = !active, true
+						}
+					}
+				}
+				if ok1 && lhs == "state" {
+					if _, rhs, ok := ownSel(v.Y); ok {
+						res, known = state == rhs, true
+					}
+				}
+				if !known {
+					die("claimable: comparison not understood in IsClaimable")
+				}
+				if v.Op == token.NEQ {
+					return !res
+				}
+				return res
+			}
+		}
+		die("claimable: expression form not understood in IsClaimable")
+		return false
+	}
+	var items []string
+	for _, locked := range []bool{false, true} {
+		for _, active := range []bool{false, true} {
+			for i, st := range states {
+				items = append(items, fmt.Sprintf("((%v, %v), %d, %v)", locked, active, codes[i], eval(ret, locked, active, st)))
+			}
+		}
+	}
+	var b strings.Builder
+	b.WriteString("(* regenerated on every run by harness/cmd/translate (claimable) from core/task/task.go IsClaimable:\n   ((locked, status is ACTIVE), state (0 STANDBY 1 CONFIGURED 2 RUNNING 3 ERROR 9 other), claimable) *)\n")
+	b.WriteString("From Coq Require Import List NArith.\nImport ListNotations.\nOpen Scope N_scope.\n\n")
+	fmt.Fprintf(&b, "Definition claimable_table : list ((bool * bool) * N * bool) :=\n  [%s].\n", strings.Join(items, ";\n   "))
 	return b.String()
 }
